@@ -226,8 +226,11 @@ func NewOptionalCallable(value Callable) OptionalCallable {
 
 // Set (golint)
 func (opt *OptionalCallable) Set(v reflect.Value) {
-	opt.isSet = true
-	opt.Callable = v.Interface().(Callable)
+	// A nil interface value of type Callable holds no function:
+	// treat it as an argument that was not supplied.
+	c, ok := v.Interface().(Callable)
+	opt.isSet = isSet(ok)
+	opt.Callable = c
 }
 
 // Type (golint)
